@@ -493,6 +493,13 @@ pub fn run_program(src: &str, only: Option<(&str, &[Vec<V>])>, nvec: usize, rng:
     };
     let ir_eval = IrEval::new(&p.prog);
     let global_vals: Vec<(u32, V)> = p.globals.iter().map(|g| (g.id, g.init)).collect();
+    // text leg (c02/text.rs): the public route's text is the printed tree, and the printed tree reads back as the tree
+    let text_leg = match &emitted {
+        Ok(Ok(m)) => Some(super::text::check_module(&p.ir, m, hist)),
+        _ => None,
+    };
+    // the module as READ BACK from the emitted text, for the evaluator
+    let reread_sx: Option<Vec<Sx>> = text_leg.as_ref().filter(|t| t.differs).and_then(|t| t.reread.as_ref()).map(m_module);
 
     for (fi, (fid, src_name, emitted_name)) in p.funcs.iter().enumerate() {
         if let Some((want, _)) = only {
@@ -699,6 +706,43 @@ pub fn run_program(src: &str, only: Option<(&str, &[Vec<V>])>, nvec: usize, rng:
                         }
                         break;
                     }
+                }
+            }
+        }
+        // ---- text leg: the emitted TEXT of this function denotes the tree that was just judged
+        if fails.is_empty() && matches!(emitted, Ok(Ok(_))) {
+            if let Some(t) = &text_leg {
+                let tf = t.fails_for(emitted_name);
+                if let Some(first) = tf.first() {
+                    // what the re-read text computes (the stronger reading: values, not trees)
+                    let mut values = String::new();
+                    if let (Some(items2), true) = (&reread_sx, obs.starts_with("ast ")) {
+                        let me2 = MslEval::new(items2, false);
+                        let statics: Vec<(String, V)> = p.globals.iter().filter(|g| g.param_mode).map(|g| (g.name.clone(), g.init)).collect();
+                        for (v, want) in vectors.iter().zip(&ir_results) {
+                            let want = match want {
+                                Some(w) => w,
+                                None => continue,
+                            };
+                            let top: Vec<TopArg> = params.iter().zip(v).map(|((d, _), x)| if *d == 0 { TopArg::Val(*x) } else { TopArg::Var(*x) }).collect();
+                            msleval::take_stuck();
+                            let got = me2.run(emitted_name, &top, &statics);
+                            msleval::take_stuck();
+                            if let Some((ret, _, _)) = got {
+                                if ret != want.ret {
+                                    values = format!(
+                                        " ;; args [{}]: IR gives {} but the emitted Metal TEXT returns {}",
+                                        v.iter().map(|x| x.show()).collect::<Vec<_>>().join(","),
+                                        want.show(),
+                                        ret.show()
+                                    );
+                                    hist.add("gen:text:value-differs");
+                                    break;
+                                }
+                            }
+                        }
+                    }
+                    fails.push(format!("{}{}", first, values));
                 }
             }
         }
